@@ -3836,6 +3836,12 @@ void SoPlexBase<R>::_project(SolRational& sol)
       sol._dualFarkas.reDim(_beforeLiftRows);
    }
 
+   // whatever is kept of the solution describes the original LP: drop the entries of the lifting columns and rows
+   sol._primal.reDim(_beforeLiftCols);
+   sol._slacks.reDim(_beforeLiftRows);
+   sol._redCost.reDim(_beforeLiftCols);
+   sol._dual.reDim(_beforeLiftRows);
+
    // adjust basis
    for(int i = _beforeLiftCols; i < numColsRational() && _hasBasis; i++)
    {
@@ -4133,6 +4139,10 @@ void SoPlexBase<R>::_untransformEquality(SolRational& sol)
    {
       sol._redCost.reDim(numOrigCols);
    }
+
+   // whatever is kept of the solution describes the original LP: drop the entries of the slack columns
+   sol._primal.reDim(numOrigCols);
+   sol._redCost.reDim(numOrigCols);
 
    // restore sides and remove slack columns
    for(int i = 0; i < _slackCols.num(); i++)
